@@ -113,30 +113,49 @@ func checkC09(c C09Case, st *evid.Stats) error {
 		st.Exclude("pre already contains a non-option token (earlier stop point)")
 		return nil
 	}
-	P := Run(nro, append(append([]string{}, c.Pre...), stop), RunOpts{})
-	if P.Panic != "" {
-		return failf("panic: %s", P.Panic)
-	}
-	if P.ParseFailed || !eqStrs(P.Remaining, append(append([]string{}, A.Remaining...), stop)) || optsDiff(A.Opts, P.Opts) != "" {
-		st.Exclude("stop candidate is a value of the preceding option, a known option or a command name there")
-		return nil
-	}
-	// a bundle whose leading letters are known options is partly interpreted before the stop hits: not a stop
-	// token in the statement's sense (generation aid: count the option hits with and without the candidate)
+	// A bundle whose leading letters are known options is partly interpreted before the stop hits at its
+	// first unknown letter. Whether those letters take effect is not fixed by the statement, so the state of
+	// the options addressed by the stop token itself is not compared (generation aid: the model's hits).
 	m1, m2 := Model(nro, c.Pre), Model(nro, append(append([]string{}, c.Pre...), stop))
 	if m1.Unspecified != "" || m2.Unspecified != "" {
 		st.Exclude("unspecified: " + m1.Unspecified + m2.Unspecified)
 		return nil
 	}
-	h1, h2 := 0, 0
-	for _, h := range m1.Hits {
-		h1 += len(h)
+	touched := map[string]bool{} // option identities addressed by the stop token
+	for id, h := range m2.Hits {
+		if len(h) != len(m1.Hits[id]) {
+			touched[id] = true
+		}
 	}
-	for _, h := range m2.Hits {
-		h2 += len(h)
+	ignore := map[string]bool{} // observation keys of those options
+	if len(touched) > 0 {
+		st.Class("stop-token-is-a-partly-known-bundle")
+		for _, l := range c.Spec.Levels().AllLevels() {
+			for k, vo := range l.Visible {
+				if touched[OKey(vo.Owner, vo.Spec.Name)] {
+					ignore[OKey(l.Path, k)] = true
+				}
+			}
+		}
 	}
-	if h1 != h2 {
-		st.Exclude("stop candidate contains a known option (bundle with known leading letters)")
+	strip := func(in map[string]OptObs) map[string]OptObs {
+		if len(ignore) == 0 {
+			return in
+		}
+		out := map[string]OptObs{}
+		for k, v := range in {
+			if !ignore[k] {
+				out[k] = v
+			}
+		}
+		return out
+	}
+	P := Run(nro, append(append([]string{}, c.Pre...), stop), RunOpts{})
+	if P.Panic != "" {
+		return failf("panic: %s", P.Panic)
+	}
+	if P.ParseFailed || !eqStrs(P.Remaining, append(append([]string{}, A.Remaining...), stop)) || optsDiff(strip(A.Opts), strip(P.Opts)) != "" {
+		st.Exclude("stop candidate is a value of the preceding option, a known option or a command name there")
 		return nil
 	}
 	R := Run(c.Spec, full, RunOpts{Dispatch: true})
@@ -181,13 +200,17 @@ func checkC09(c C09Case, st *evid.Stats) error {
 		return failf("require-order: remaining = %s, want %s (stop token %q and everything after it verbatim); %s", q(R.Remaining), q(want), stop, describeCase(c.Spec, full))
 	}
 	// option state: compare value/called/as for every observation key (the two specs have the same tree)
-	if d := optsDiff(A.Opts, R.Opts); d != "" {
+	if d := optsDiff(strip(A.Opts), strip(R.Opts)); d != "" {
 		return failf("require-order: option state differs from parsing the part before the stop token without require-order: %s; pre=%s stop=%q tail=%s %s", d, q(c.Pre), stop, q(c.Tail), describeCase(c.Spec, full))
 	}
 	if R.Writer != "" {
 		return failf("require-order: unexpected warning output %q", R.Writer)
 	}
-	// same command selected as by pre alone
+	// same command selected as by pre alone (not comparable when the stop token itself addressed options,
+	// e.g. the help option as a bundled letter)
+	if len(touched) > 0 {
+		return nil
+	}
 	if len(AD.Inv) != len(R.Inv) {
 		return failf("require-order: %d user functions dispatched, %d for the part before the stop token", len(R.Inv), len(AD.Inv))
 	}
